@@ -75,8 +75,10 @@ def minimise(check, history, viol, log=print):
 
 
 def write_replay(check, history, viol, seed, run, res):
-    os.makedirs(os.path.join(core.VERIF_DIR, 'replays'), exist_ok=True)
-    path = os.path.join(core.VERIF_DIR, 'replays',
+    rdir = os.environ.get('VERIF_REPLAY_DIR') or \
+        os.path.join(core.VERIF_DIR, 'replays')
+    os.makedirs(rdir, exist_ok=True)
+    path = os.path.join(rdir,
                         f"{check.PROP}-{seed}-{run}-{viol['oracle']}.json")
     with open(path, 'w') as f:
         json.dump({'property': check.PROP, 'oracle': viol['oracle'],
